@@ -108,11 +108,14 @@ def D():
 def use_impl(name):
     d = D()
     fns = d.rust if name == "rust" else d.py
+    # whatever the runner's per-shard AUTO_TWINS mode bound is put back afterwards (it also alternates parse_tree,
+    # which this module does not drive itself)
+    saved = (d.dt._merge_entries, d.dt._is_tree, d.dt._count_blocks, d.do.sorted_tree_items)
     d.dt._merge_entries, d.dt._is_tree, d.dt._count_blocks, d.do.sorted_tree_items = fns
     try:
         yield
     finally:
-        d.dt._merge_entries, d.dt._is_tree, d.dt._count_blocks, d.do.sorted_tree_items = d.rust
+        d.dt._merge_entries, d.dt._is_tree, d.dt._count_blocks, d.do.sorted_tree_items = saved
 
 
 def resolve(spec):
